@@ -184,7 +184,7 @@ func runAttribution(c *Ctx) {
 			kindsOnly: []string{"txXid", "txCommit", "autoRows", "ddl", "txRollback"}}
 		h := genHistory(r, cfg, o)
 		// several tables share one table id: every table map re-announces the id, possibly for another table
-		mode := []string{"distinct-ids", "shared-id", "two-ids", "shared-id-same-name-other-db", "shared-id-same-db-other-name", "boundary-ids"}[hi%6]
+		mode := []string{"distinct-ids", "shared-id", "two-ids", "shared-id-same-name-other-db", "shared-id-same-db-other-name", "boundary-ids", "shared-id-names-differ-in-case"}[hi%7]
 		edge := []uint64{0xffffff, 0xffffffff, 0, 1, 0xfffffe, 0x1000000, 0x7fffffff, 0x80000000}
 		if !cfg.Tid4 {
 			edge = append(edge, 0xffffffffffff, 0x100000000, 0xffffffffff)
@@ -205,6 +205,10 @@ func runAttribution(c *Ctx) {
 			case "shared-id-same-db-other-name":
 				h.tables[i].id = 77
 				h.tables[i].db, h.tables[i].name = "shop", fmt.Sprintf("orders_%d", i)
+			case "shared-id-names-differ-in-case":
+				// distinct tables on a case-sensitive master (`shop`.`Orders` is not `shop`.`orders`)
+				h.tables[i].id = 77
+				h.tables[i].db, h.tables[i].name = []string{"shop", "Shop", "shop"}[i%3], []string{"Orders", "orders", "orders"}[i%3]
 			}
 		}
 		// the oracle's expected events carry the table names: refresh them
